@@ -828,7 +828,8 @@ func (f *Frame) execInstr(in ssa.Instruction) {
 		return
 	case *ssa.Alloc:
 		et := x.Type().(*types.Pointer).Elem()
-		if x.Heap && (x.Comment == "new" || x.Comment == "complit" || x.Comment == "slicelit" || x.Comment == "makeslice") {
+		if x.Heap {
+			// escaping variable or allocation: an object with identity on the heap
 			// heap object with identity
 			r := c.fresh("new", "Int")
 			f.assumeFresh(r)
